@@ -262,6 +262,12 @@ class SymArray:
 
 
 # ============================================================================ BV element domain
+def _bitop(a, b, f_int, f_bool):
+    # NumPy: & | ^ on two boolean operands are the logical operations (result bool), on integers the bitwise ones
+    isb = lambda v: isinstance(v, (B.SB, bool, np.bool_))
+    return f_bool(a, b) if (isb(a) and isb(b)) else f_int(a, b)
+
+
 class BVDomain:
     name = 'bv'
 
@@ -270,7 +276,9 @@ class BVDomain:
            np.equal: lambda a, b: B.cmp('eq', a, b), np.not_equal: lambda a, b: B.cmp('ne', a, b),
            np.less: lambda a, b: B.cmp('lt', a, b), np.less_equal: lambda a, b: B.cmp('le', a, b),
            np.greater: lambda a, b: B.cmp('gt', a, b), np.greater_equal: lambda a, b: B.cmp('ge', a, b),
-           np.logical_or: B.lor, np.logical_and: B.land, np.logical_xor: B.lxor}
+           np.logical_or: B.lor, np.logical_and: B.land, np.logical_xor: B.lxor,
+           np.bitwise_and: lambda a, b: _bitop(a, b, B.band, B.land), np.bitwise_or: lambda a, b: _bitop(a, b, B.bor, B.lor),
+           np.bitwise_xor: lambda a, b: _bitop(a, b, B.bxor, B.lxor)}
     CMP = {np.equal, np.not_equal, np.less, np.less_equal, np.greater, np.greater_equal,
            np.logical_or, np.logical_and, np.logical_xor, np.logical_not}
 
@@ -615,7 +623,11 @@ def _trace(x, offset=0, axis1=0, axis2=1, **k):
     a = unwrap(x)
     d = np.diagonal(a, offset=offset, axis1=axis1, axis2=axis2)
     r = d.sum(axis=-1)
-    return x._w(r) if isinstance(r, np.ndarray) else r
+    if isinstance(r, np.ndarray):
+        return x._w(r)
+    # NumPy returns a NumPy scalar here (which has .real / .imag / .item()): a 0-d array of the declared dtype stands for it
+    z = np.empty((), dtype=object); z[()] = r
+    return x._w(z)
 
 
 # ============================================================================ module shim
@@ -641,6 +653,8 @@ class NPShim(types.ModuleType):
         dt = np.dtype(dtype).type if dtype is not None else a.dtype.type
         return SymArray(a.astype(object), dt, self._dom)
 
+    def finfo(self, t): return np.finfo(self._dtf(t))
+    def iinfo(self, t): return np.iinfo(self._dtf(t))
     def zeros(self, shape, dtype=float, **k): return self._mk(np.zeros(shape, dtype=self._dtf(dtype)))
     def ones(self, shape, dtype=float, **k): return self._mk(np.ones(shape, dtype=self._dtf(dtype)))
     def empty(self, shape, dtype=float, **k): return self._mk(np.zeros(shape, dtype=self._dtf(dtype)))
@@ -754,7 +768,25 @@ def _obj_array(x):
     return r
 
 
-BVDomain.default_dtype = lambda self, flat: np.int64
+def _bv_default_dtype(self, flat):
+    """dtype NumPy's np.array / np.asarray discovers for a (nested) list of scalars: NumPy-typed scalars (a proxy that carries a declared
+    width stands for one) keep their type, python ints are discovered as the default integer, python bools as bool; then ordinary promotion"""
+    ts = []
+    for v in flat:
+        if isinstance(v, B.BV):
+            ts.append(np.dtype(B.dtype_of_dw(v.dw)) if v.dw is not None else np.dtype(np.int64))
+        elif isinstance(v, (B.SB, bool, np.bool_)):
+            ts.append(np.dtype(np.bool_))
+        elif isinstance(v, np.generic):
+            ts.append(v.dtype)
+        elif isinstance(v, int):
+            ts.append(np.dtype(np.int64))
+        else:
+            return np.int64
+    return np.result_type(*ts).type if ts else np.int64
+
+
+BVDomain.default_dtype = _bv_default_dtype
 
 
 def _bv_scalar_fn(self, name, x):
